@@ -591,6 +591,12 @@ def check_property(pid, tier, jobs):
     # known-finding harnesses that passed: the defect is gone; say so (no suppression needed)
     for ent, n in known_hits:
         log("KNOWN-FINDING: property=%s %s [%s; harness %s]" % (pid, ent["what"], ent["id"], n))
+    # listed findings whose harness is not part of this tier (too expensive for it): still named, and marked as not re-examined
+    hit_ids = {e["id"] for e, _ in known_hits}
+    for ent in known["findings"]:
+        if ent["property"] == pid and ent["id"] not in hit_ids and ent.get("harness") not in names:
+            log("KNOWN-FINDING: property=%s %s [%s; harness %s belongs to the thorough tier and was not re-examined in this run]"
+                % (pid, ent["what"], ent["id"], ent.get("harness")))
     for n, o in violations:
         log("VIOLATION property=%s replay=%s" % (pid, o["replay"]))
         log("  harness=%s check=%r at %s reproduced natively in %s: %s" % (n, o["check"], o["location"], o["profiles"],
